@@ -809,6 +809,20 @@ func OtherSteps(t *Task) int {
 	return S.steps - t.Steps
 }
 
+// ReadyOthers is the number of tasks that are ready to run (the caller, which is running, is
+// not among them). Zero means that the caller is the only task that can make a move: the
+// system is quiescent but for it.
+//go:norace
+func ReadyOthers() int {
+	if S == nil {
+		return 0
+	}
+	S.mu.Lock()
+	n := len(S.ready) + S.stalled
+	S.mu.Unlock()
+	return n
+}
+
 // Prefer makes the controller release t whenever it is ready (nil: no preference). Used
 // by injection-point sweeps so that the injected request lands exactly where intended.
 //go:norace
